@@ -93,6 +93,26 @@ add("F151", "C11", "open", "'10:30 EST to 12:45 EST' is an error: the difference
     c11({"DiffZoned": [tlit(10, 30), tlit(12, 45), {"Abbr": "EST"}]}),
     signature="T1 Z to T2 Z with the same explicit zone AND Err(No more token)")
 
+# ---- C12 -------------------------------------------------------------------------------------
+def u(i, n=0): return {"unit": i, "name": n}
+def nl(v): return {"v": float(v), "sign": 0, "group": False}
+def c12(shape, seps=0): return {"sub": "units", "case": {"shape": shape, "seps": seps}}
+# unit indices follow config.json order: metric-length 0..6, metric-weight 7..14, memory 15..24, imperial length 25..29, imperial weight 30..32
+add("F70", "C12", "fixed", "unit conversion formulas were read with the user's separators: under the default configuration '1 inch to mm' was 254 and '1 km to mile' 6.2e14",
+    c12({"Convert": [nl(1), u(25), 0, u(0)]}), commit="103ff5e")
+add("F90", "C12", "fixed", "'1 kg to hg' was 1000 (downgrade factor of Kilogram)", c12({"Convert": [nl(1), u(13), 0, u(12)]}), commit="a5f2c82")
+add("F91", "C12", "fixed", "'1 byte to bit' was 1024 (downgrade factor of byte)", c12({"Convert": [nl(1), u(16), 0, u(15)]}), commit="3266819")
+add("F92", "C12", "fixed", "'1 inch to kg' gave a weight: after the metric/imperial bridge the target was searched in every family", c12({"Convert": [nl(1), u(25), 0, u(13)]}), commit="0bae245")
+
+# ---- C13 / C14 -------------------------------------------------------------------------------
+def src(n, base=10): return {"n": n, "base": base, "frac": None, "prefix_upper": False, "digit_case": 0}
+add("F100", "C13", "fixed", "'2147483648 to hex' printed 0x7FFFFFFF: based numbers were printed through 'as i32'",
+    {"sub": "based", "case": {"shape": {"Convert": [src(2147483648), True, 0]}}}, commit="cd1480b")
+add("F101", "C13", "fixed", "'0xAF00' was 0 XAF followed by 00: the money lexer claimed '<digit><currency letters>' inside hexadecimal literals",
+    {"sub": "based", "case": {"shape": {"Literal": src(44800, 16)}}}, commit="882a73d")
+add("F100b", "C14", "fixed", "'1/1/2040 as unix' printed 2147483647: raw timestamps were printed through 'as i32'",
+    {"sub": "unix", "case": {"shape": {"DateAsUnix": [{"y": 2040, "m": 1, "d": 1, "spell": {"Slash": [False, False]}}, 0, 0]}, "default_tz": None}}, commit="cd1480b")
+
 EXTRA = "tools/kf_extra.py"
 try:
     exec(open("/verif/" + EXTRA).read())
